@@ -151,6 +151,16 @@ func c09Run(x *vmc.X, cfg vmc.Cfg) {
 		if strings.HasPrefix(c.state, "huge") {
 			n = 900 // ~9 KiB of addresses per member
 		}
+		if n > 1 && i == 1 {
+			// the same weight in a handful of addresses (seed C09-i): five /dns4 names of ~2 KiB each, so a bound that
+			// looks at the number of addresses instead of their bytes lets a ~10 KiB record through
+			for j := 0; j < 5; j++ {
+				label := fmt.Sprintf("m%d-%d-", i, j)
+				label += strings.Repeat("y", 2000-len(label))
+				l.h.Peerstore().AddAddr(id, ma.StringCast("/dns4/"+label+"/tcp/1"), peerstore.PermanentAddrTTL)
+			}
+			continue
+		}
 		for j := 0; j < n; j++ {
 			l.h.Peerstore().AddAddr(id, c09PubAddr(i*1000+j), peerstore.PermanentAddrTTL)
 		}
